@@ -1077,13 +1077,13 @@ package types
 //@   assigns dst.*
 //@   ensures[C14] forall k string :: has(src, k) ==> has(dst, k)
 //@   ensures[C14] forall k string :: !has(src, k) ==> (has(dst, k) <==> old(has(dst, k)))
-//@?   ensures[C14] forall k string :: has(src, k) ==> (dst[k] == nil <==> src[k] == nil) && (src[k] != nil ==> fresh(dst[k])) && len(dst[k]) == len(src[k])   // undischarged on the reference tree: not claimed
+//@   ensures[C14] forall k string :: has(src, k) ==> (dst[k] == nil <==> src[k] == nil) && (src[k] != nil ==> fresh(dst[k])) && len(dst[k]) == len(src[k])
 //@   loop 1
 //@     invariant frame()
 //@     invariant forall k string :: seen(k) ==> has(src, k) && has(dst, k)
 //@     invariant forall k string :: !seen(k) ==> (has(dst, k) <==> old(has(dst, k)))
 //@     invariant forall k string :: !seen(k) ==> !has(dst, k)
-//@?     invariant forall k string :: seen(k) ==> (dst[k] == nil <==> src[k] == nil) && (src[k] != nil ==> fresh(dst[k])) && len(dst[k]) == len(src[k])   // undischarged on the reference tree: not claimed
+//@     invariant forall k string :: seen(k) ==> (dst[k] == nil <==> src[k] == nil) && (src[k] != nil ==> fresh(dst[k])) && len(dst[k]) == len(src[k])
 
 //@ func deriveDeepCopy_15
 //@   nopanic[C14,C20]
